@@ -248,11 +248,16 @@ class TypeGen:
         if k == "indexed":
             holder = self.fresh("H")
             inner = self.encode(props, depth + 1, allow_after)
-            form = r.below(3)
+            form = r.below(4)
             if form == 0:
                 self.place("type %s = { k: %s, other: string };" % (holder, inner), allow_after)
             elif form == 1:
                 self.place("interface %s { k: %s; other: string }" % (holder, inner), allow_after)
+            elif form == 3:
+                # the indexed member is INHERITED
+                base = self.fresh("HB")
+                self.place("interface %s { k: %s; other: string }" % (base, inner), allow_after)
+                self.place("interface %s extends %s { own: number }" % (holder, base), allow_after)
             else:
                 return "{ k: %s, other: string }['k']" % inner
             return "%s['k']" % holder
@@ -465,10 +470,16 @@ class ExprGen:
             # members of every kind (property, method, getter, optional method, call signature) selected by key
             members = "onPick(id: number): void; label: string; get g(): %s; opt?(): void; p: %s; 'quoted-m'(): number" % (self.expr(d + 1), self.expr(d + 1))
             idx = r.pick(["['onPick']", "['onPick' | 'label']", "[string]", "['g']", "['opt']", "['p' | 'onPick']", "['quoted-m']", "['label']"])
-            form = r.below(3)
+            form = r.below(4)
             if form == 0:
                 return "{ %s }%s" % (members, idx)
             n = self.tg.fresh("H")
+            if form == 3:
+                # the members are INHERITED
+                b = self.tg.fresh("HB")
+                self.tg.place("interface %s { %s }" % (b, members))
+                self.tg.place("interface %s extends %s { own: symbol }" % (n, b))
+                return n + idx
             self.tg.place(("interface %s { %s }" if form == 1 else "type %s = { %s };") % (n, members))
             return n + idx
         return "string"
